@@ -37,10 +37,39 @@ func (v *FnVC) execCall(in *ssa.Call, st *State) {
 		unsupported("call of %s which has no contract (at %s)", callee.String(), v.posOf(in.Pos()))
 	}
 	var args []Val
+	type copyBack struct {
+		addr *Addr
+		cell *Addr
+	}
+	var backs []copyBack
 	for _, a := range c.Args {
-		args = append(args, v.value(a, st))
+		av := v.value(a, st)
+		if av.T == nil && av.Addr != nil && (av.Addr.Kind == "elem" || av.Addr.Kind == "field") {
+			// pointer to a slice element / struct field passed to a method (e.g.
+			// g.Neighbourhoods[i].Add(j)): copy-in/copy-out through a fresh cell.
+			// Sound because the callee contracts here neither retain the pointer
+			// nor reach the element by another path.
+			et := av.Addr.Typ
+			if sortOf(et) == "STRUCT" {
+				unsupported("pointer to struct element passed to %s", callee.Name())
+			}
+			cur := v.loadAddr(st, av.Addr)
+			ref := v.newRef(st, "argcell")
+			hn := cellHeap(et)
+			h := v.heap(st, hn, ArrSort(sortOf(et)))
+			st.heaps[hn] = v.define(hn, Store(h, ref, cur.T))
+			cell := &Addr{Kind: "cell", Heap: hn, Ref: ref, Typ: et}
+			backs = append(backs, copyBack{av.Addr, cell})
+			av = Val{T: ref, Typ: a.Type()}
+		}
+		args = append(args, av)
 	}
 	v.applyContract(in, callee, spec, args, st)
+	for _, b := range backs {
+		nv := v.loadAddr(st, b.cell)
+		v.assume(v.curGuard, v.typeInv(nv.T, nv.Typ, st), "type")
+		v.storeAddr(st, b.addr, nv, in.Pos())
+	}
 }
 
 func (v *FnVC) execBuiltin(in *ssa.Call, b *ssa.Builtin, st *State) {
